@@ -108,6 +108,22 @@ Theorem C07_global_draw_refuted : exists p sd g g', run p sd g 0 0 <> run p sd g
 Proof. exact global_draw_refuted. Qed.
 Print Assumptions C07_global_draw_refuted.
 
+(* 10. A draw from the seeded stream that is conditional on ambient state (site kind Guarded: logging level, environment, clock,
+       verbosity) loses reproducibility although no ambient value reaches the output and every proposal is a value of the seeded stream:
+       the ambient bit moves the stream position.  Unconditionally, the same draw is harmless. *)
+Theorem C07_guarded_draw_refuted : exists sd g g',
+  run (guarded propose_next) sd g 0 0 <> run (guarded propose_next) sd g' 0 0 /\
+  seeded_used (guarded propose_next) sd g 0 0 <> seeded_used (guarded propose_next) sd g' 0 0 /\
+  (forall v, In v (run (guarded propose_next) sd g 0 0) -> exists i, v = sd i) /\
+  (forall v, In v (run (guarded propose_next) sd g' 0 0) -> exists i, v = sd i).
+Proof. exact guarded_refuted. Qed.
+Print Assumptions C07_guarded_draw_refuted.
+
+Theorem C07_unguarded_draw_deterministic : forall rest, no_global rest -> forall sd g g' i j j',
+  run (Draw SSeeded (fun _ => rest)) sd g i j = run (Draw SSeeded (fun _ => rest)) sd g' i j'.
+Proof. exact unguarded_deterministic. Qed.
+Print Assumptions C07_unguarded_draw_deterministic.
+
 (* ---- non-vacuity *)
 Definition c_example (s : search_t) (a : acq_t) : cfg :=
   {| c_search := s; c_surr := 1; c_acq := a; c_acq_d := false; c_strategy := 0; c_init := 0; c_cond := false; c_moo := false;
@@ -128,5 +144,7 @@ Example numpy_seed_witness_on_snapshot :
            {| c_search := CBO; c_surr := 1; c_acq := UCB; c_acq_d := false; c_strategy := 0; c_init := 0; c_cond := false; c_moo := false; c_transfer := false; c_seed := SeedNpInt |}
            [fresh_search_site] = false.
 Proof. reflexivity. Qed.
+Example a_guarded_site_would_break : sites_ok wfacts (c_example CBO UCB) ({| s_owner := O_CBO; s_key := S_None; s_cls := K_Guarded |} :: nsites) = false.
+Proof. vm_compute. reflexivity. Qed.
 Example seeds_matter : forall g, run (prog_of (fun l => hd 0%Z l) [SSeeded] []) (fun _ => 1%Z) g 0 0 <> run (prog_of (fun l => hd 0%Z l) [SSeeded] []) (fun _ => 2%Z) g 0 0.
 Proof. intros g. apply seed_sensitive. cbn. discriminate. Qed.
